@@ -252,6 +252,13 @@ class FermionicArray(AbelianArray):
             other, fn, inplace=True, **kwargs
         )
 
+    def item(self):
+        """Convert a scalar (single block) fermionic array to a python
+        scalar, with any lazy phase multiplied in.
+        """
+        x = self.phase_sync() if self.phases else self
+        return super(FermionicArray, x).item()
+
     def _do_reduction(self, fn):
         """Need to sync phases before reducing over the block values."""
         x = self.phase_sync() if self.phases else self
